@@ -986,3 +986,11 @@ Section IdValue.
     - rewrite D1, D2. reflexivity.
   Qed.
 End IdValue.
+
+(* ================= built-ins do not write to params ================= *)
+(* whatever the built-in of the method does, the user's feature is called exactly once, after it,
+   with the object handle_message took from the structured message *)
+Theorem user_feature_gets_params obj bst (builtin : list N -> obj -> bst -> bst) hb m p s :
+  snd (call_user_feature obj bst builtin hb true m p s)
+  = (if hb then [CBuiltin m p] else []) ++ [CUser m p].
+Proof. unfold call_user_feature. destruct hb; reflexivity. Qed.
